@@ -989,4 +989,371 @@ Section Refine.
     - destruct r; try reflexivity. apply ref_mnew.
     - destruct r; try reflexivity. apply ref_mrange; assumption.
   Qed.
+  (* ================= tidiness is preserved by well-scoped operations ============================================ *)
+  Lemma forallb_set_nth {A} (p : A -> bool) l i x : forallb p l = true -> p x = true -> forallb p (set_nth l i x) = true.
+  Proof.
+    revert i; induction l as [|a l IH]; intros [|i] H X; cbn [set_nth forallb] in *; auto;
+      apply andb_prop in H; destruct H as [H1 H2]; apply andb_true_intro; split; auto.
+  Qed.
+
+  Lemma tidy_hset h id e : tidyb sch h = true -> (forall o, e = HObj o -> obj_tidyb sch o = true) -> tidyb sch (hset h id e) = true.
+  Proof.
+    intros T E. unfold tidyb, hset. apply forallb_set_nth; [exact T|]. destruct e; auto.
+  Qed.
+  Lemma tidy_hset_obj h id o : tidyb sch h = true -> obj_tidyb sch o = true -> tidyb sch (hset h id (HObj o)) = true.
+  Proof. intros T O. apply tidy_hset; [exact T|]. intros o' E; inversion E; subst; exact O. Qed.
+  Lemma tidy_app_var h e : tidyb sch h = true -> (forall o, e <> HObj o) -> tidyb sch (h ++ [e]) = true.
+  Proof. unfold tidyb. intros T N. rewrite forallb_app, T. cbn. destruct e; auto. exfalso. eapply N; reflexivity. Qed.
+
+  Lemma cells_set fs : forall cs f fd c, cells_tidyb fs cs = true -> nth_error fs f = Some fd -> cell_tidyb fd c = true ->
+    cells_tidyb fs (set_nth cs f c) = true.
+  Proof.
+    induction fs as [|f0 fs IH]; intros [|c0 cs] f fd c T N C; cbn [cells_tidyb] in T; try discriminate.
+    - destruct f; discriminate.
+    - apply andb_prop in T. destruct T as [T1 T2]. destruct f as [|f]; cbn [nth_error set_nth cells_tidyb] in *.
+      + inversion N; subst. rewrite C, T2. reflexivity.
+      + rewrite T1. cbn [andb]. eapply IH; eauto.
+  Qed.
+  Lemma slots_set fs : forall ss j0 k x, slots_tidyb fs j0 ss = true -> slot_tidyb fs (j0 + k) x = true ->
+    slots_tidyb fs j0 (set_nth ss k x) = true.
+  Proof.
+    induction ss as [|s0 ss IH]; intros j0 k x T X; [reflexivity|].
+    cbn [slots_tidyb] in T. apply andb_prop in T. destruct T as [T1 T2]. destruct k as [|k]; cbn [set_nth slots_tidyb].
+    - rewrite Nat.add_0_r in X. rewrite X, T2. reflexivity.
+    - rewrite T1. cbn [andb]. apply IH; [exact T2|]. rewrite Nat.add_succ_l, <- Nat.add_succ_r. exact X.
+  Qed.
+
+  Lemma obj_tidy_set_cell o f fd c : obj_tidyb sch o = true -> field_of sch (o_mid o) f = Some fd -> cell_tidyb fd c = true ->
+    obj_tidyb sch (set_cell o f c) = true.
+  Proof.
+    unfold obj_tidyb, field_of, set_cell. cbn [o_mid o_cells o_oneofs]. destruct (get_msg sch (o_mid o)) as [md|]; [|discriminate].
+    intros T F C. apply andb_prop in T. destruct T as [T T3]. apply andb_prop in T. destruct T as [T1 T2].
+    rewrite (cells_set _ _ _ _ _ T1 F C), T2, T3. reflexivity.
+  Qed.
+  Lemma obj_tidy_set_oneof o j x : obj_tidyb sch o = true ->
+    slot_tidyb (fields_of sch (o_mid o)) j x = true -> obj_tidyb sch (set_oneof o j x) = true.
+  Proof.
+    unfold obj_tidyb, fields_of, set_oneof. cbn [o_mid o_cells o_oneofs]. destruct (get_msg sch (o_mid o)) as [md|].
+    - intros T X. apply andb_prop in T. destruct T as [T T3]. apply andb_prop in T. destruct T as [T1 T2].
+      rewrite T1, set_nth_length, T2. cbn [andb]. apply slots_set; [exact T3|exact X].
+    - destruct (o_cells o); [|discriminate]. destruct (o_oneofs o); [|discriminate]. intros _ _. destruct j; reflexivity.
+  Qed.
+  Lemma obj_tidy_set_unk o u : obj_tidyb sch o = true -> obj_tidyb sch (set_unk o u) = true.
+  Proof. unfold obj_tidyb, set_unk. cbn [o_mid o_cells o_oneofs]. auto. Qed.
+
+  Lemma ftype_eqb_eq a b : ftype_eqb a b = true -> a = b.
+  Proof.
+    destruct a as [k|m]; destruct b as [k'|m']; cbn; try discriminate.
+    - destruct k; destruct k'; try discriminate; reflexivity.
+    - intro H. apply Nat.eqb_eq in H. subst. reflexivity.
+  Qed.
+
+  (* a view is used at the type of the container it points to *)
+  Definition view_typed (h : heap) (t : ftype) (r : cref) : Prop :=
+    forall id f ob fd, r = RField id f -> get_obj h id = Some ob -> field_of sch (o_mid ob) f = Some fd -> f_ty fd = t.
+
+  Lemma lview_typed h t r l : lview_okb sch h t r = true -> read_list h r = Some l -> view_typed h t r.
+  Proof.
+    unfold lview_okb. intros W R. rewrite R in W. apply andb_prop in W. destruct W as [_ W].
+    intros id f ob fd -> G F. unfold field_view_okb in W. rewrite G, afield_of_eq, F in W. apply ftype_eqb_eq. exact W.
+  Qed.
+  Lemma mview_typed h t r m : mview_okb sch h t r = true -> read_map h r = Some m -> view_typed h t r.
+  Proof.
+    unfold mview_okb. intros W R. rewrite R in W. apply andb_prop in W. destruct W as [_ W].
+    intros id f ob fd -> G F. unfold field_view_okb in W. rewrite G, afield_of_eq, F in W. apply ftype_eqb_eq. exact W.
+  Qed.
+  Lemma view_typed_app h x t r : view_typed h t r -> (forall id f, r = RField id f -> id < length h) -> view_typed (h ++ [x]) t r.
+  Proof.
+    intros V L id f ob fd E G F. specialize (L id f E). unfold get_obj, hget in G. rewrite nth_error_app1 in G by exact L.
+    eapply V; eauto.
+  Qed.
+
+  Lemma tidy_write_list h r l0 l t : tidyb sch h = true -> read_list h r = Some l0 -> view_typed h t r ->
+    forallb (elem_fitsb t) (olist l) = true -> tidyb sch (write_list h r l) = true.
+  Proof.
+    intros T R V Fit. destruct r as [o f|v|]; cbn [write_list]; [| |exact T].
+    - destruct (read_list_inv _ _ _ _ T R) as [ob [fd [p [G [F [S [C To]]]]]]]. rewrite G. apply tidy_hset_obj; [exact T|].
+      apply obj_tidy_set_cell with fd; [exact To|exact F|]. unfold cell_tidyb. rewrite S. rewrite (V o f ob fd eq_refl G F). exact Fit.
+    - apply tidy_hset; [exact T|]. intros o E; discriminate.
+  Qed.
+  Lemma tidy_write_map h r m0 m t : tidyb sch h = true -> read_map h r = Some m0 -> view_typed h t r ->
+    forallb (fun kv => elem_fitsb t (snd kv)) (olist m) = true -> tidyb sch (write_map h r m) = true.
+  Proof.
+    intros T R V Fit. destruct r as [o f|v|]; cbn [write_map]; [| |exact T].
+    - destruct (read_map_inv _ _ _ _ T R) as [ob [fd [kk [G [F [S [C To]]]]]]]. rewrite G. apply tidy_hset_obj; [exact T|].
+      apply obj_tidy_set_cell with fd; [exact To|exact F|]. unfold cell_tidyb. rewrite S. rewrite (V o f ob fd eq_refl G F). exact Fit.
+    - apply tidy_hset; [exact T|]. intros o E; discriminate.
+  Qed.
+  Lemma pte_scalar_wt t v s : pval_to_elem t v = Some (EScalar s) -> exists k, t = TScalar k /\ wt_scalar k s = true.
+  Proof.
+    unfold pval_to_elem. destruct t as [k|m]; destruct v; try discriminate.
+    - destruct (wt_scalar k v) eqn:W; [|discriminate]. intro H; inversion H; subst. eauto.
+    - destruct (Nat.eqb m mid); discriminate.
+  Qed.
+
+  Lemma forallb_firstn {A} (p : A -> bool) n l : forallb p l = true -> forallb p (firstn n l) = true.
+  Proof.
+    revert n; induction l as [|a l IH]; intros [|n] H; cbn [firstn forallb] in *; auto.
+    apply andb_prop in H. destruct H as [H1 H2]. rewrite H1. cbn. auto.
+  Qed.
+  Lemma fits_mput t m k e : forallb (fun kv => elem_fitsb t (snd kv)) m = true -> elem_fitsb t e = true ->
+    forallb (fun kv : val * elem => elem_fitsb t (snd kv)) (mput m k e) = true.
+  Proof.
+    induction m as [|[k' e'] m IH]; intros H E; cbn [mput forallb snd] in *; [rewrite E; reflexivity|].
+    apply andb_prop in H. destruct H as [H1 H2]. destruct (val_key_eqb k' k); cbn [forallb snd].
+    - rewrite E, H2. reflexivity.
+    - rewrite H1. cbn. auto.
+  Qed.
+  Lemma fits_mdel t m k : forallb (fun kv : val * elem => elem_fitsb t (snd kv)) m = true ->
+    forallb (fun kv : val * elem => elem_fitsb t (snd kv)) (mdel m k) = true.
+  Proof.
+    induction m as [|[k' e'] m IH]; intros H; cbn [mdel forallb snd] in *; [reflexivity|].
+    apply andb_prop in H. destruct H as [H1 H2]. destruct (val_key_eqb k' k); cbn [forallb snd]; [exact H2|].
+    rewrite H1. cbn. auto.
+  Qed.
+
+  Lemma read_list_lt h id f l : read_list h (RField id f) = Some l -> id < length h.
+  Proof. intro R. destruct (read_list_field _ _ _ _ R) as [ob [G _]]. eapply get_obj_lt; eauto. Qed.
+  Lemma read_map_lt h id f m : read_map h (RField id f) = Some m -> id < length h.
+  Proof. intro R. destruct (read_map_field _ _ _ _ R) as [ob [G _]]. eapply get_obj_lt; eauto. Qed.
+
+  Lemma field_of_nth mid f : field_of sch mid f = nth_error (fields_of sch mid) f.
+  Proof. unfold field_of, fields_of. destruct (get_msg sch mid); [reflexivity|destruct f; reflexivity]. Qed.
+
+  Definition tidy_after (h : heap) (o : op) : Prop := tidyb sch (fst (step sch h o)) = true.
+
+  Lemma tp_set h mid p f v : tidyb sch h = true -> well_scopedb sch h (OSet (PMsg mid p) f v) = true -> tidy_after h (OSet (PMsg mid p) f v).
+  Proof.
+    intros T W. unfold tidy_after. destruct p as [id|]; [|exact T]. cbn [step well_scopedb] in *. rewrite afield_of_eq in W.
+    destruct (field_of sch mid f) as [fd|] eqn:F; [|exact T].
+    destruct (recv_obj sch h mid (Some id)) as [ob|] eqn:R; [|exact T].
+    destruct (recv_tidy _ _ _ _ T R) as [G [M To]]. subst mid.
+    destruct (f_shape fd) eqn:S.
+    - destruct (pval_to_elem (f_ty fd) v) as [[s|[q|]]|] eqn:P; cbn [fst]; try exact T.
+      + destruct (pte_scalar_wt _ _ _ P) as [k [Ty Wt]]. apply tidy_hset_obj; [exact T|]. apply obj_tidy_set_cell with fd; auto.
+        unfold cell_tidyb. rewrite S, Ty. exact Wt.
+      + destruct (pte_ptr _ _ _ P) as [m Ty]. apply tidy_hset_obj; [exact T|]. apply obj_tidy_set_cell with fd; auto.
+        unfold cell_tidyb. rewrite S, Ty. reflexivity.
+    - destruct v; try exact T. apply andb_prop in W. destruct W as [W1 W2]. apply ftype_eqb_eq in W1. subst t.
+      destruct (read_list h r) as [l|] eqn:Rd; [|exact T]. cbn [fst]. apply tidy_hset_obj; [exact T|]. apply obj_tidy_set_cell with fd; auto.
+      unfold cell_tidyb. rewrite S. apply (lview_fits _ _ _ _ W2 Rd).
+    - apply Bool.negb_true_iff in W. destruct (pval_to_elem (f_ty fd) v) as [e|] eqn:P; [|exact T]. cbn [fst].
+      apply tidy_hset_obj; [exact T|]. apply obj_tidy_set_oneof; [exact To|]. unfold slot_tidyb.
+      rewrite <- field_of_nth, F. unfold is_member. rewrite S, Nat.eqb_refl. cbn [andb]. apply (elem_in_fits _ _ _ W P).
+    - destruct v; try exact T. apply andb_prop in W. destruct W as [W1 W2]. apply ftype_eqb_eq in W1. subst t.
+      destruct (read_map h r) as [m|] eqn:Rd; [|exact T]. cbn [fst]. apply tidy_hset_obj; [exact T|]. apply obj_tidy_set_cell with fd; auto.
+      unfold cell_tidyb. rewrite S. apply (mview_fits _ _ _ _ W2 Rd).
+  Qed.
+
+  Lemma wt_zero k : wt_scalar k (match k with KBytes => VNil | _ => zero_scalar k end) = true.
+  Proof. destruct k; reflexivity. Qed.
+
+  Lemma tp_clear h mid p f : tidyb sch h = true -> tidy_after h (OClear (PMsg mid p) f).
+  Proof.
+    intros T. unfold tidy_after. destruct p as [id|]; [|exact T]. cbn [step].
+    destruct (field_of sch mid f) as [fd|] eqn:F; [|exact T].
+    destruct (recv_obj sch h mid (Some id)) as [ob|] eqn:R; [|exact T].
+    destruct (recv_tidy _ _ _ _ T R) as [G [M To]]. subst mid. cbn [fst]. apply tidy_hset_obj; [exact T|].
+    destruct (f_shape fd) eqn:S.
+    - destruct (f_ty fd) as [k|m] eqn:Ty; apply obj_tidy_set_cell with fd; auto; unfold cell_tidyb; rewrite S, Ty; [apply wt_zero|reflexivity].
+    - assert (X : obj_tidyb sch (set_cell ob f (CList None)) = true).
+      { apply obj_tidy_set_cell with fd; auto. unfold cell_tidyb. rewrite S. reflexivity. }
+      destruct (f_ty fd); exact X.
+    - assert (X : obj_tidyb sch (match nth oneof (o_oneofs ob) None with
+                                   | Some (f', _) => if Nat.eqb f' f then set_oneof ob oneof None else ob
+                                   | None => ob end) = true).
+      { destruct (nth oneof (o_oneofs ob) None) as [[f' e]|]; [|exact To]. destruct (Nat.eqb f' f); [|exact To].
+        apply obj_tidy_set_oneof; [exact To|reflexivity]. }
+      destruct (f_ty fd); exact X.
+    - assert (X : obj_tidyb sch (set_cell ob f (CMap None)) = true).
+      { apply obj_tidy_set_cell with fd; auto. unfold cell_tidyb. rewrite S. reflexivity. }
+      destruct (f_ty fd); exact X.
+  Qed.
+
+  Lemma tp_mutable h mid p f : tidyb sch h = true -> tidy_after h (OMutable (PMsg mid p) f).
+  Proof.
+    intros T. unfold tidy_after. destruct p as [id|]; [|exact T]. cbn [step].
+    destruct (field_of sch mid f) as [fd|] eqn:F; [|exact T].
+    destruct (recv_obj sch h mid (Some id)) as [ob|] eqn:R; [|exact T].
+    destruct (recv_tidy _ _ _ _ T R) as [G [M To]]. subst mid. unfold halloc.
+    destruct (f_shape fd) eqn:S.
+    - destruct (f_ty fd) as [k|m] eqn:Ty; [exact T|].
+      assert (X : tidyb sch (hset (h ++ [HObj (new_obj sch m)]) id (HObj (set_cell ob f (CMsg (Some (length h)))))) = true).
+      { apply tidy_hset_obj; [apply tidy_app_new; exact T|]. apply obj_tidy_set_cell with fd; auto. unfold cell_tidyb. rewrite S, Ty. reflexivity. }
+      destruct (nth_error (o_cells ob) f) as [[v|[q|]|l|mm|]|]; cbn [fst]; try exact X; exact T.
+    - assert (X : tidyb sch (hset h id (HObj (set_cell ob f (CList (Some []))))) = true).
+      { apply tidy_hset_obj; [exact T|]. apply obj_tidy_set_cell with fd; auto. unfold cell_tidyb. rewrite S. reflexivity. }
+      destruct (f_ty fd); destruct (nth_error (o_cells ob) f) as [[v|q|[l|]|mm|]|]; cbn [fst]; try exact X; exact T.
+    - destruct (f_ty fd) as [k|m] eqn:Ty; [exact T|].
+      assert (X : tidyb sch (hset (h ++ [HObj (new_obj sch m)]) id (HObj (set_oneof ob oneof (Some (f, EPtr (Some (length h))))))) = true).
+      { apply tidy_hset_obj; [apply tidy_app_new; exact T|]. apply obj_tidy_set_oneof; [exact To|]. unfold slot_tidyb.
+        rewrite <- field_of_nth, F. unfold is_member. rewrite S, Nat.eqb_refl, Ty. reflexivity. }
+      destruct (nth oneof (o_oneofs ob) None) as [[f' [v|[q|]]]|]; try (destruct (Nat.eqb f' f)); cbn [fst]; try exact X; exact T.
+    - assert (X : tidyb sch (hset h id (HObj (set_cell ob f (CMap (Some []))))) = true).
+      { apply tidy_hset_obj; [exact T|]. apply obj_tidy_set_cell with fd; auto. unfold cell_tidyb. rewrite S. reflexivity. }
+      destruct (f_ty fd); destruct (nth_error (o_cells ob) f) as [[v|q|l|[mm|]|]|]; cbn [fst]; try exact X; exact T.
+  Qed.
+
+  Lemma tp_setunk h mid p u : tidyb sch h = true -> tidy_after h (OSetUnknown (PMsg mid p) u).
+  Proof.
+    intros T. unfold tidy_after. destruct p as [id|]; [|exact T]. cbn [step].
+    destruct (recv_obj sch h mid (Some id)) as [ob|] eqn:R; [|exact T].
+    destruct (recv_tidy _ _ _ _ T R) as [G [M To]]. cbn [fst]. apply tidy_hset_obj; [exact T|]. apply obj_tidy_set_unk. exact To.
+  Qed.
+
+  Lemma tp_newfield h mid p f : tidyb sch h = true -> tidy_after h (ONewField (PMsg mid p) f).
+  Proof.
+    intros T. unfold tidy_after. cbn [step]. destruct (field_of sch mid f) as [fd|]; [|exact T]. unfold halloc.
+    destruct (f_shape fd); destruct (f_ty fd); cbn [fst]; try exact T; try (apply tidy_app_new; exact T);
+      apply tidy_app_var; try exact T; intros o E; discriminate.
+  Qed.
+  Lemma tp_lset h t r i v : tidyb sch h = true -> lview_okb sch h t r = true -> is_nil_msg v = false -> tidy_after h (OLSet (PList t r) i v).
+  Proof.
+    intros T W N. unfold tidy_after. cbn [step]. destruct (read_list h r) as [l|] eqn:R; [|exact T].
+    destruct (pval_to_elem t v) as [e|] eqn:P; [|exact T]. destruct (in_bounds i (olen l)); [|exact T]. cbn [fst].
+    apply (tidy_write_list _ _ _ _ t T R (lview_typed _ _ _ _ W R)). cbn [olist].
+    apply forallb_set_nth; [apply (lview_fits _ _ _ _ W R)|apply (elem_in_fits _ _ _ N P)].
+  Qed.
+  Lemma tp_lappend h t r v : tidyb sch h = true -> lview_okb sch h t r = true -> is_nil_msg v = false -> tidy_after h (OLAppend (PList t r) v).
+  Proof.
+    intros T W N. unfold tidy_after. cbn [step]. destruct (read_list h r) as [l|] eqn:R; [|exact T].
+    destruct (pval_to_elem t v) as [e|] eqn:P; [|exact T]. cbn [fst].
+    apply (tidy_write_list _ _ _ _ t T R (lview_typed _ _ _ _ W R)). cbn [olist].
+    rewrite forallb_app, (lview_fits _ _ _ _ W R). cbn. rewrite (elem_in_fits _ _ _ N P). reflexivity.
+  Qed.
+  Lemma tp_lappendmut h t r : tidyb sch h = true -> lview_okb sch h t r = true -> tidy_after h (OLAppendMutable (PList t r)).
+  Proof.
+    intros T W. unfold tidy_after. cbn [step]. destruct t as [k|m]; [exact T|].
+    destruct (read_list h r) as [l|] eqn:R; [|exact T]. unfold halloc. cbn [fst].
+    apply (tidy_write_list _ _ l _ (TMsg m) (tidy_app_new _ m T) (read_list_app _ _ _ _ R)).
+    - apply view_typed_app; [apply (lview_typed _ _ _ _ W R)|]. intros id f ->. eapply read_list_lt; eauto.
+    - cbn [olist]. rewrite forallb_app, (lview_fits _ _ _ _ W R). reflexivity.
+  Qed.
+  Lemma tp_ltrunc h t r n : tidyb sch h = true -> lview_okb sch h t r = true -> tidy_after h (OLTruncate (PList t r) n).
+  Proof.
+    intros T W. unfold tidy_after. cbn [step]. destruct (read_list h r) as [l|] eqn:R; [|exact T].
+    destruct ((0 <=? n)%Z && (n <=? Z.of_nat (olen l))%Z); [|exact T]. cbn [fst].
+    apply (tidy_write_list _ _ _ _ t T R (lview_typed _ _ _ _ W R)). pose proof (lview_fits _ _ _ _ W R) as Fit.
+    destruct l as [x|]; cbn [olist] in *; [apply forallb_firstn; exact Fit|reflexivity].
+  Qed.
+  Lemma tp_lnew h t r : tidyb sch h = true -> tidy_after h (OLNewElement (PList t r)).
+  Proof. intros T. unfold tidy_after. cbn [step]. destruct t; [exact T|]. unfold halloc. cbn [fst]. apply tidy_app_new; exact T. Qed.
+
+  Lemma tp_mset h kk t r k v : tidyb sch h = true -> mview_okb sch h t r = true -> is_nil_msg v = false -> tidy_after h (OMSet (PMap kk t r) k v).
+  Proof.
+    intros T W N. unfold tidy_after. cbn [step]. destruct (read_map h r) as [[m|]|] eqn:R; try exact T.
+    destruct (pval_to_elem t v) as [e|] eqn:P; [|exact T]. destruct (wt_scalar kk k); [|exact T]. cbn [fst].
+    apply (tidy_write_map _ _ _ _ t T R (mview_typed _ _ _ _ W R)). cbn [olist].
+    apply fits_mput; [apply (mview_fits _ _ _ _ W R)|apply (elem_in_fits _ _ _ N P)].
+  Qed.
+  Lemma tp_mclear h kk t r k : tidyb sch h = true -> mview_okb sch h t r = true -> tidy_after h (OMClear (PMap kk t r) k).
+  Proof.
+    intros T W. unfold tidy_after. cbn [step].
+    assert (Main : tidyb sch (fst (if wt_scalar kk k
+                                   then match read_map h r with
+                                        | Some (Some m) => (write_map h r (Some (mdel m k)), PUnit)
+                                        | _ => (h, PUnit)
+                                        end
+                                   else (h, PPanic))) = true).
+    { destruct (wt_scalar kk k); [|exact T]. destruct (read_map h r) as [[m|]|] eqn:R; try exact T. cbn [fst].
+      apply (tidy_write_map _ _ _ _ t T R (mview_typed _ _ _ _ W R)). cbn [olist]. apply fits_mdel. apply (mview_fits _ _ _ _ W R). }
+    destruct r; [exact Main|exact Main|exact T].
+  Qed.
+  Lemma tp_mmutable h kk t r k : tidyb sch h = true -> mview_okb sch h t r = true -> tidy_after h (OMMutable (PMap kk t r) k).
+  Proof.
+    intros T W. unfold tidy_after. cbn [step]. destruct t as [k0|mm]; [exact T|].
+    destruct (read_map h r) as [[m|]|] eqn:R; try exact T. destruct (wt_scalar kk k); [|exact T].
+    destruct (massoc m k); [exact T|]. unfold halloc. cbn [fst].
+    apply (tidy_write_map _ _ (Some m) _ (TMsg mm) (tidy_app_new _ mm T) (read_map_app _ _ _ _ R)).
+    - apply view_typed_app; [apply (mview_typed _ _ _ _ W R)|]. intros id f ->. eapply read_map_lt; eauto.
+    - cbn [olist]. apply fits_mput; [apply (mview_fits _ _ _ _ W R)|reflexivity].
+  Qed.
+  Lemma tp_mnew h kk t r : tidyb sch h = true -> tidy_after h (OMNewValue (PMap kk t r)).
+  Proof. intros T. unfold tidy_after. cbn [step]. destruct t; [exact T|]. unfold halloc. cbn [fst]. apply tidy_app_new; exact T. Qed.
+
+  Theorem tidy_preserved h o : tidyb sch h = true -> well_scopedb sch h o = true -> tidyb sch (fst (step sch h o)) = true.
+  Proof.
+    intros T W. destruct (is_read o) eqn:Rd; [rewrite (reads_frame sch h o Rd); exact T|].
+    destruct o; try discriminate Rd; change (tidy_after h ?o) in |- * || idtac.
+    - destruct r; try exact T. apply tp_set; assumption.
+    - destruct r; try exact T. apply tp_clear; assumption.
+    - destruct r; try exact T. apply tp_mutable; assumption.
+    - destruct r; try exact T. apply tp_newfield; assumption.
+    - destruct r; try exact T. apply tp_setunk; assumption.
+    - cbn [step]. unfold halloc. cbn [fst]. apply tidy_app_new; exact T.
+    - destruct r; try exact T. cbn [well_scopedb] in W. apply andb_prop in W. destruct W as [W1 W2].
+      apply Bool.negb_true_iff in W2. apply tp_lset; assumption.
+    - destruct r; try exact T. cbn [well_scopedb] in W. apply andb_prop in W. destruct W as [W1 W2].
+      apply Bool.negb_true_iff in W2. apply tp_lappend; assumption.
+    - destruct r; try exact T. apply tp_lappendmut; assumption.
+    - destruct r; try exact T. apply tp_ltrunc; assumption.
+    - destruct r; try exact T. apply tp_lnew; assumption.
+    - destruct r; try exact T. cbn [well_scopedb] in W. apply andb_prop in W. destruct W as [W W4].
+      apply andb_prop in W. destruct W as [W W3]. apply andb_prop in W. destruct W as [W1 W2].
+      apply Bool.negb_true_iff in W3. apply tp_mset; assumption.
+    - destruct r; try exact T. cbn [well_scopedb] in W. apply andb_prop in W. destruct W as [W1 W2]. apply tp_mclear; assumption.
+    - destruct r; try exact T. cbn [well_scopedb] in W. apply andb_prop in W. destruct W as [W W3].
+      apply andb_prop in W. destruct W as [W1 W2]. apply tp_mmutable; assumption.
+    - destruct r; try exact T. apply tp_mnew; assumption.
+  Qed.
+
+  (* ================= histories ======================================================================================== *)
+  Definition cstep (st : heap * list pval) (o : op) : heap * list pval :=
+    let (h, outs) := st in let (h', r) := step sch h o in (h', outs ++ [r]).
+  Definition astep (st : aheap * list aout) (o : op) : aheap * list aout :=
+    let (a, outs) := st in let (a', r) := ref_step sch a o in (a', outs ++ [r]).
+
+  Lemma exec_gen : forall os h outs, tidyb sch h = true -> scoped_from sch h os = true ->
+    fst (fold_left astep os (abs sch h, map abs_out outs)) = abs sch (fst (fold_left cstep os (h, outs))) /\
+    snd (fold_left astep os (abs sch h, map abs_out outs)) = map abs_out (snd (fold_left cstep os (h, outs))) /\
+    tidyb sch (fst (fold_left cstep os (h, outs))) = true.
+  Proof.
+    induction os as [|o os IH]; intros h outs T S; cbn [fold_left].
+    - auto.
+    - cbn [scoped_from] in S. apply andb_prop in S. destruct S as [W S].
+      pose proof (step_refines_eq h o T W) as Rf. unfold refines in Rf.
+      pose proof (tidy_preserved h o T W) as P.
+      unfold astep at 2 4, cstep at 2 4 6. rewrite Rf. destruct (step sch h o) as [h1 r] eqn:E. cbn [fst snd] in *.
+      replace (map abs_out outs ++ [abs_out r]) with (map abs_out (outs ++ [r])) by (rewrite map_app; reflexivity).
+      apply IH; assumption.
+  Qed.
+
+  Theorem history_refines_eq : forall os, scoped_from sch [] os = true ->
+    fst (ref_exec sch os) = abs sch (fst (exec sch os)) /\
+    snd (ref_exec sch os) = map abs_out (snd (exec sch os)) /\
+    tidyb sch (fst (exec sch os)) = true.
+  Proof. intros os S. exact (exec_gen os [] [] eq_refl S). Qed.
+  (* Reflect.run (operands drawn from earlier results by arbitrary functions) is exec on the operations it executes *)
+  Lemma run_gen : forall ops h outs os0,
+    let st := fold_left (trace_step sch) ops (h, outs, os0) in
+    fold_left (fun (st : heap * list pval) (mk : list pval -> op) =>
+                 let (h, outs) := st in let (h', r) := step sch h (mk outs) in (h', outs ++ [r])) ops (h, outs) = fst st /\
+    exists os1, snd st = os0 ++ os1 /\ fold_left cstep os1 (h, outs) = fst st.
+  Proof.
+    induction ops as [|mk ops IH]; intros h outs os0; cbn [fold_left].
+    - split; [reflexivity|]. exists []. rewrite app_nil_r. split; reflexivity.
+    - unfold trace_step at 2 4 6. destruct (step sch h (mk outs)) as [h1 r] eqn:E.
+      destruct (IH h1 (outs ++ [r]) (os0 ++ [mk outs])) as [A [os1 [B C]]]. split; [exact A|].
+      exists (mk outs :: os1). rewrite B, <- app_assoc. split; [reflexivity|]. cbn [fold_left]. unfold cstep at 2. rewrite E. exact C.
+  Qed.
+
+  Lemma run_is_exec ops : run sch ops = exec sch (trace sch ops).
+  Proof.
+    destruct (run_gen ops [] [] []) as [A [os1 [B C]]]. cbv zeta in *. unfold run, trace, exec.
+    cbn [app] in B.
+    transitivity (fst (fold_left (trace_step sch) ops ([], [], []))); [exact A|].
+    transitivity (fold_left cstep os1 ([], [])); [symmetry; exact C|].
+    apply (f_equal (fun l => fold_left cstep l (@nil hent, @nil pval))). symmetry. exact B.
+  Qed.
+
+  Theorem run_refines_eq : forall ops, scoped_from sch [] (trace sch ops) = true ->
+    fst (ref_exec sch (trace sch ops)) = abs sch (fst (run sch ops)) /\
+    snd (ref_exec sch (trace sch ops)) = map abs_out (snd (run sch ops)) /\
+    tidyb sch (fst (run sch ops)) = true.
+  Proof. intros ops S. rewrite run_is_exec. apply history_refines_eq. exact S. Qed.
+
+  Theorem step_refines_pair h o : tidyb sch h = true -> well_scopedb sch h o = true ->
+    abs_out (snd (step sch h o)) = snd (ref_step sch (abs sch h) o) /\
+    abs sch (fst (step sch h o)) = fst (ref_step sch (abs sch h) o).
+  Proof. intros T W. pose proof (step_refines_eq h o T W) as R. unfold refines in R. rewrite R. split; reflexivity. Qed.
 End Refine.
